@@ -147,8 +147,8 @@ SpellVal(v, sty, pre3) ==
       [] v[1] = 17 -> <<LC>> \o (IF sty.list = 3 /\ v[2] # <<>> THEN <<SP>> ELSE <<>>)
                        \o SpellTags(v[2], sty, pre3)
                        \o (IF sty.list = 3 /\ v[2] # <<>> THEN <<SP>> ELSE <<>>) \o <<RC>>
-      [] v[1] = 18 -> <<LTc, LTc>> \o (IF sty.ng = 2 THEN <<NL>> ELSE <<>>)     \* ng 2: the grid starts on the next line
-                      \o SpellGrid(v, [sty EXCEPT !.nl = 1, !.empty = 1]) \o <<GTc, GTc>>
+      [] v[1] = 18 -> <<LTc, LTc>> \o (IF sty.ng = 2 THEN Nl(sty) ELSE <<>>)     \* ng 2: the grid starts on the next line
+                      \o SpellGrid(v, [sty EXCEPT !.empty = 1]) \o <<GTc, GTc>>      \* (line ends as in the whole document)
 
 \* the denotation of what SpellVal writes (only the zone-less date-time style changes it)
 RECURSIVE Denotes(_, _)
